@@ -3,18 +3,22 @@
    proved (NfFrag.nfb, sound by C06_normal_form_checker; configuration premise NfFrag.cfg_okb), and
    there: 6 when the model's document differs from the document the implementation's pipeline
    wrote (first normal form J1), 7 when re-parsing the model's document does not give a document
-   equal to it (would contradict C06_round_trip_normal_form). *)
+   equal to it (would contradict C06_round_trip_normal_form).  10 when the SCHEMA lies in the
+   fragment of C06_idempotent_classfree (Plain.plainb class-free, NfFrag.named_tidyb): there the
+   parsed element is in the normal form by theorem (8 if the checker disagrees: cannot happen). *)
 From Coq Require String. Import String.StringSyntax.
-From Statham.Model Require Import Str Json Elem Validate Equality Parser SerJson RunHelpers RunSchema NfFrag.
+From Statham.Model Require Import Str Json Elem Validate Equality Parser SerJson RunHelpers RunSchema Plain NfFrag.
 Local Open Scope string_scope.
 Local Open Scope list_scope.
 
 Definition run_case_c06 (c : scase * option json) : list nat :=
   let (sc, j1) := c in
   let cfg := cfg_of sc in
-  run_case sc ++
+  let frag := plainb cfg false 200 (sc_schema sc) && named_tidyb 200 (sc_schema sc) && cfg_okb cfg in
+  run_case sc ++ (if frag then [10%nat] else []) ++
   match parse_element cfg (sc_schema sc) [] with
   | POk (e, _) =>
+    (if frag && negb (nfb cfg 200 e) then [8%nat] else []) ++
     if nfb cfg 200 e && cfg_okb cfg then
       [9%nat] ++
       (match j1 with
